@@ -35,8 +35,9 @@ pub const SEPS: [&str; 3] = ["\n", "\n\n", "\n# s\n\n"];
 pub const TRAILING: [&str; 4] = ["", "\n", "# t\n", "\n# t\n"];
 
 pub const FIELD_SLOTS: usize = 8;
-// per field: ncomments, name, colon, first, cont1, ind1, cont2, ind2
-const FIELD_MENUS: [usize; FIELD_SLOTS] = [3, 7, 5, 13, 10, 4, 10, 4];
+// per field: comments (0, 1, 2 plain ones; 3 without blank after '#'; 4 a commented-out field; 5 non-ASCII with trailing blanks; 6 a bare '#'),
+// name, colon, first, cont1, ind1, cont2, ind2
+const FIELD_MENUS: [usize; FIELD_SLOTS] = [7, 7, 5, 13, 10, 4, 10, 4];
 
 pub fn menus(sk: Skel) -> Vec<usize> {
     let mut m = vec![LEADING.len()];
@@ -94,8 +95,19 @@ pub fn render_opt(sk: Skel, v: &[usize], unique: bool) -> Option<Doc> {
         let mut fields: Vec<(String, String)> = vec![];
         for f in 0..sk.fields {
             let (nc, nm, co, fi, c1, i1, c2, i2) = (next(), next(), next(), next(), next(), next(), next(), next());
-            for k in 0..nc {
-                let c = format!("# c{}{}{}", p, f, k);
+            let shaped: Vec<String> = match nc {
+                0..=2 => (0..nc).map(|k| format!("# c{}{}{}", p, f, k)).collect(),
+                3 => vec![format!("#c{}{}", p, f)],
+                4 => vec![format!("# A{}{}: b", p, f)],
+                5 => vec![format!("# é{}{}  ", p, f)],
+                _ => {
+                    if comments.iter().any(|(c, _): &(String, Anchor)| c == "#") {
+                        return None; // comments are identified by their text: at most one bare '#'
+                    }
+                    vec!["#".to_string()]
+                }
+            };
+            for c in shaped {
                 text.push_str(&c);
                 text.push('\n');
                 comments.push((c, Anchor::BeforeField(p, f)));
